@@ -1,5 +1,881 @@
 (* Proofs/TagP.v — lemmas about Model/Tag.v (C18) *)
-From Coq Require Import List NArith Bool Arith Lia.
+From Coq Require Import List NArith Bool Arith Lia ZifyBool ZifyN ZifyNat.
 From RB Require Import Base.Bytes Base.ListX Gen.LangTable Model.Tag.
 Import ListNotations.
 Local Open Scope N_scope.
+
+(* the code-shape constants stay abstract in the generic lemmas, so that the proofs do not depend on
+   their current values; the theorems of Props/C18.v supply `eq_refl` for the values they need *)
+Local Opaque strncmp_bytes lang_cmp_bytes language_lowercases registry_len_adjust.
+
+Arguments N.add : simpl never.
+Arguments N.sub : simpl never.
+Arguments N.mul : simpl never.
+Arguments N.eqb : simpl never.
+Arguments N.ltb : simpl never.
+Arguments N.leb : simpl never.
+
+(* ================================================================== char boundaries *)
+
+Lemma is_cont_ascii b : b < 128 -> is_cont b = false.
+Proof. unfold is_cont. intros. lia. Qed.
+
+Lemma boundary_len s : boundary s (length s) = true.
+Proof.
+  unfold boundary. destruct (length s) eqn:E; [reflexivity|].
+  rewrite <- E. assert (H : nth_error s (length s) = None) by (apply nth_error_None; lia).
+  rewrite H. apply Nat.eqb_refl.
+Qed.
+
+Lemma boundary_ascii s i b : nth_error s i = Some b -> b < 128 -> boundary s i = true.
+Proof.
+  intros H Hb. unfold boundary. destruct i; [reflexivity|]. rewrite H, is_cont_ascii by exact Hb. reflexivity.
+Qed.
+
+(* the consequence of UTF-8 well-formedness that the code relies on: the byte after an ASCII byte
+   starts a character (or is the end of the string) *)
+Definition afol (s : bytes) : Prop :=
+  forall i b, nth_error s i = Some b -> b < 128 -> boundary s (S i) = true.
+
+Lemma boundary_S_cons a s i : boundary (a :: s) (S (S i)) = boundary s (S i).
+Proof. reflexivity. Qed.
+
+Lemma afol_cons_ascii a s : afol s -> boundary (a :: s) 1 = true -> afol (a :: s).
+Proof.
+  intros H H1 i b Hn Hb. destruct i as [|i]; [exact H1|].
+  rewrite boundary_S_cons. cbn [nth_error] in Hn. exact (H i b Hn Hb).
+Qed.
+
+Lemma afol_cons_high a s : afol s -> 128 <= a -> afol (a :: s).
+Proof.
+  intros H Ha i b Hn Hb. destruct i as [|i].
+  - cbn [nth_error] in Hn. injection Hn as ->. lia.
+  - rewrite boundary_S_cons. cbn [nth_error] in Hn. exact (H i b Hn Hb).
+Qed.
+
+Lemma afol_nil : afol [].
+Proof. intros i b H. destruct i; discriminate. Qed.
+
+(* a well-formed string never starts with a continuation byte *)
+Lemma utf8_valid_head b s : utf8_valid (b :: s) = true -> is_cont b = false.
+Proof.
+  cbn [utf8_valid]. unfold is_cont, in_range.
+  destruct (b <? 128) eqn:E1; [lia|].
+  destruct ((194 <=? b) && (b <=? 223)) eqn:E2; [lia|].
+  destruct ((224 <=? b) && (b <=? 239)) eqn:E3; [lia|].
+  destruct ((240 <=? b) && (b <=? 244)) eqn:E4; [lia|]. discriminate.
+Qed.
+
+Lemma boundary_1_valid a s : utf8_valid s = true -> boundary (a :: s) 1 = true.
+Proof.
+  intros H. unfold boundary. cbn [nth_error]. destruct s as [|b s]; [reflexivity|].
+  cbn [nth_error]. rewrite (utf8_valid_head b s H). reflexivity.
+Qed.
+
+Lemma utf8_valid_afol_len : forall n s, (length s <= n)%nat -> utf8_valid s = true -> afol s.
+Proof.
+  induction n as [|n IH]; intros s Hl Hv.
+  - destruct s; [apply afol_nil|cbn in Hl; lia].
+  - destruct s as [|b0 t]; [apply afol_nil|].
+    cbn [utf8_valid] in Hv. cbn [length] in Hl. unfold in_range in Hv.
+    destruct (b0 <? 128) eqn:E1.
+    { apply afol_cons_ascii; [apply IH; [lia|exact Hv]|apply boundary_1_valid; exact Hv]. }
+    destruct ((194 <=? b0) && (b0 <=? 223)) eqn:E2.
+    { destruct t as [|b1 t1]; [discriminate|]. apply andb_true_iff in Hv. destruct Hv as [H1 Hv].
+      cbn [length] in Hl.
+      apply afol_cons_high; [|lia]. apply afol_cons_high; [|lia]. apply IH; [lia|exact Hv]. }
+    destruct ((224 <=? b0) && (b0 <=? 239)) eqn:E3.
+    { destruct t as [|b1 [|b2 t2]]; try discriminate.
+      apply andb_true_iff in Hv. destruct Hv as [Hv Hv2]. apply andb_true_iff in Hv. destruct Hv as [H1 H2].
+      cbn [length] in Hl.
+      apply afol_cons_high; [|lia]. apply afol_cons_high.
+      2:{ destruct (b0 =? 224); [lia|]. destruct (b0 =? 237); lia. }
+      apply afol_cons_high; [|lia]. apply IH; [lia|exact Hv2]. }
+    destruct ((240 <=? b0) && (b0 <=? 244)) eqn:E4; [|discriminate].
+    destruct t as [|b1 [|b2 [|b3 t3]]]; try discriminate.
+    apply andb_true_iff in Hv. destruct Hv as [Hv Hv3]. apply andb_true_iff in Hv. destruct Hv as [Hv H3].
+    apply andb_true_iff in Hv. destruct Hv as [H1 H2]. cbn [length] in Hl.
+    apply afol_cons_high; [|lia]. apply afol_cons_high.
+    2:{ destruct (b0 =? 240); [lia|]. destruct (b0 =? 244); lia. }
+    apply afol_cons_high; [|lia]. apply afol_cons_high; [|lia]. apply IH; [lia|exact Hv3].
+Qed.
+
+Lemma utf8_valid_afol s : utf8_valid s = true -> afol s.
+Proof. apply (utf8_valid_afol_len (length s)). lia. Qed.
+
+(* ---- afol is closed under the slicing and case operations of the code ---- *)
+
+Lemma nth_error_firstn_some : forall k (s : bytes) i b,
+  nth_error (firstn k s) i = Some b -> (i < k)%nat /\ nth_error s i = Some b.
+Proof.
+  induction k as [|k IH]; intros s i b H.
+  - destruct i; discriminate.
+  - destruct s as [|a s]; [destruct i; discriminate|]. destruct i as [|i].
+    + split; [lia|exact H].
+    + cbn [firstn nth_error] in H. destruct (IH s i b H). split; [lia|assumption].
+Qed.
+
+Lemma nth_error_firstn_lt : forall k (s : bytes) i, (i < k)%nat -> nth_error (firstn k s) i = nth_error s i.
+Proof.
+  induction k as [|k IH]; intros s i H; [lia|].
+  destruct s as [|a s]; [destruct i; reflexivity|]. destruct i as [|i]; [reflexivity|].
+  cbn [firstn nth_error]. apply IH. lia.
+Qed.
+
+Lemma nth_error_skipn_add : forall k (s : bytes) i, nth_error (skipn k s) i = nth_error s (k + i).
+Proof.
+  induction k as [|k IH]; intros s i; [reflexivity|].
+  destruct s as [|a s]; [destruct i; reflexivity|]. cbn [skipn Nat.add nth_error]. apply IH.
+Qed.
+
+Lemma afol_firstn k s : afol s -> afol (firstn k s).
+Proof.
+  intros H i b Hn Hb. destruct (nth_error_firstn_some k s i b Hn) as [Hik Hs].
+  specialize (H i b Hs Hb). unfold boundary in *.
+  destruct (nth_error (firstn k s) (S i)) as [c|] eqn:E.
+  - destruct (nth_error_firstn_some k s (S i) c E) as [_ E2]. rewrite E2 in H. exact H.
+  - apply nth_error_None in E. apply Nat.eqb_eq.
+    assert (i < length (firstn k s))%nat by (apply nth_error_Some; rewrite Hn; discriminate). lia.
+Qed.
+
+Lemma afol_skipn k s : afol s -> afol (skipn k s).
+Proof.
+  intros H i b Hn Hb. rewrite nth_error_skipn_add in Hn. specialize (H (k + i)%nat b Hn Hb).
+  unfold boundary in *. rewrite nth_error_skipn_add. replace (k + S i)%nat with (S (k + i)) by lia.
+  destruct (nth_error s (S (k + i))) as [c|] eqn:E; [exact H|].
+  apply Nat.eqb_eq in H. apply Nat.eqb_eq. rewrite skipn_length. lia.
+Qed.
+
+Lemma lower_b_cont c : is_cont (lower_b c) = is_cont c.
+Proof. unfold lower_b, is_upper, in_range, is_cont. destruct ((65 <=? c) && (c <=? 90)) eqn:E; lia. Qed.
+
+Lemma lower_b_ascii c : lower_b c < 128 -> c < 128.
+Proof. unfold lower_b, is_upper, in_range. destruct ((65 <=? c) && (c <=? 90)) eqn:E; lia. Qed.
+
+Lemma afol_lower s : afol s -> afol (lower s).
+Proof.
+  intros H i b Hn Hb. unfold lower in *. rewrite nth_error_map in Hn.
+  destruct (nth_error s i) as [c|] eqn:E; [|discriminate]. cbn in Hn. injection Hn as <-.
+  specialize (H i c E (lower_b_ascii c Hb)). unfold boundary in *. rewrite nth_error_map, map_length.
+  destruct (nth_error s (S i)) as [d|]; cbn [option_map]; [rewrite lower_b_cont|]; exact H.
+Qed.
+
+Lemma str_to_afol s i r : afol s -> str_to s i = Some r -> afol r.
+Proof. unfold str_to. intros H. destruct (boundary s i); [|discriminate]. intros [= <-]. apply afol_firstn, H. Qed.
+
+Lemma str_from_afol s i r : afol s -> str_from s i = Some r -> afol r.
+Proof. unfold str_from. intros H. destruct (boundary s i); [|discriminate]. intros [= <-]. apply afol_skipn, H. Qed.
+
+Lemma str_to_ok s i : boundary s i = true -> str_to s i = Some (firstn i s).
+Proof. unfold str_to. intros ->. reflexivity. Qed.
+Lemma str_from_ok s i : boundary s i = true -> str_from s i = Some (skipn i s).
+Proof. unfold str_from. intros ->. reflexivity. Qed.
+
+(* ---- searching ---- *)
+
+Lemma find_byte_nth c : forall s i, find_byte c s = Some i -> nth_error s i = Some c.
+Proof.
+  induction s as [|x t IH]; intros i H; [discriminate|]. cbn [find_byte] in H.
+  destruct (x =? c) eqn:E.
+  - injection H as <-. apply N.eqb_eq in E. subst. reflexivity.
+  - destruct (find_byte c t) as [j|]; [|discriminate]. cbn in H. injection H as <-. cbn [nth_error]. apply IH. reflexivity.
+Qed.
+
+Lemma find_byte_lt c s i : find_byte c s = Some i -> (i < length s)%nat.
+Proof. intros H. apply nth_error_Some. rewrite (find_byte_nth c s i H). discriminate. Qed.
+
+Lemma is_prefix_nth : forall p s k b, is_prefix p s = true -> nth_error p k = Some b -> nth_error s k = Some b.
+Proof.
+  induction p as [|x p IH]; intros s k b Hp Hk; [destruct k; discriminate|].
+  destruct s as [|y s]; [discriminate|]. cbn [is_prefix] in Hp. apply andb_true_iff in Hp. destruct Hp as [E Hp].
+  apply N.eqb_eq in E. subst y. destruct k as [|k]; [exact Hk|]. cbn [nth_error] in *. eapply IH; eassumption.
+Qed.
+
+Lemma find_sub_prefix p : forall s i, find_sub p s = Some i -> is_prefix p (skipn i s) = true.
+Proof.
+  induction s as [|x t IH]; intros i H.
+  - cbn [find_sub] in H. destruct (is_prefix p []) eqn:E; [|discriminate]. injection H as <-. exact E.
+  - cbn [find_sub] in H. destruct (is_prefix p (x :: t)) eqn:E.
+    + injection H as <-. exact E.
+    + destruct (find_sub p t) as [j|] eqn:F; [|discriminate]. cbn in H. injection H as <-. cbn [skipn]. apply IH. reflexivity.
+Qed.
+
+(* after an occurrence of a non-empty ASCII pattern the string can be cut *)
+Lemma boundary_after_sub p s i :
+  afol s -> p <> [] -> forallb (fun b => b <? 128) p = true ->
+  find_sub p s = Some i -> boundary s (i + length p) = true.
+Proof.
+  intros Ha Hne Hp Hf. pose proof (find_sub_prefix p s i Hf) as Hpre.
+  destruct (nth_error p (length p - 1)) as [b|] eqn:E.
+  2:{ apply nth_error_None in E. destruct p; [contradiction|cbn [length] in E; lia]. }
+  assert (Hb : b < 128).
+  { rewrite forallb_forall in Hp. specialize (Hp b (nth_error_In _ _ E)). lia. }
+  pose proof (is_prefix_nth p _ _ b Hpre E) as Hs. rewrite nth_error_skipn_add in Hs.
+  replace (i + length p)%nat with (S (i + (length p - 1))).
+  - exact (Ha _ b Hs Hb).
+  - destruct p; [contradiction|cbn [length]; lia].
+Qed.
+
+(* ================================================================== totality (no panic) *)
+
+Lemma byte_is_nth s k c : byte_is s k c = true -> nth_error s k = Some c.
+Proof.
+  unfold byte_is. destruct (nth_error s k) as [b|]; [|discriminate]. intros H. apply N.eqb_eq in H. subst. reflexivity.
+Qed.
+
+Lemma pu_scan_ok lang : forall fuel i prefix,
+  (i <= length lang)%nat -> (length lang - i <= fuel)%nat ->
+  exists pv p i', pu_scan lang fuel i prefix = Some (pv, p, i') /\ boundary lang i' = true
+    /\ (p = prefix \/ exists k, p = firstn k lang) /\ (forall v, pv = Some v -> exists k, v = skipn k lang).
+Proof.
+  induction fuel as [|f IH]; intros i prefix Hi Hf.
+  - exists None, prefix, i. cbn [pu_scan]. replace i with (length lang) by lia.
+    repeat split; [apply boundary_len|left; reflexivity|discriminate].
+  - cbn [pu_scan]. destruct (i <? length lang)%nat eqn:Elt; cbn [negb].
+    2:{ exists None, prefix, i. replace i with (length lang) by lia.
+        repeat split; [apply boundary_len|left; reflexivity|discriminate]. }
+    destruct (byte_is lang (i - 1) DASH && byte_is lang (i + 1) DASH) eqn:Ed.
+    + apply andb_true_iff in Ed. destruct Ed as [Ed1 _].
+      assert (Hb1 : boundary lang (i - 1) = true).
+      { eapply boundary_ascii; [apply byte_is_nth; exact Ed1|unfold DASH; lia]. }
+      destruct (byte_is lang i 120) eqn:Ex.
+      * assert (Hbi : boundary lang i = true).
+        { eapply boundary_ascii; [apply byte_is_nth; exact Ex|lia]. }
+        rewrite (str_from_ok _ _ Hbi). destruct (is_nil prefix).
+        -- rewrite (str_to_ok _ _ Hb1). exists (Some (skipn i lang)), (firstn (i - 1) lang), i.
+           repeat split; [exact Hbi|right; eexists; reflexivity|]. intros v [= <-]. eexists; reflexivity.
+        -- exists (Some (skipn i lang)), prefix, i.
+           repeat split; [exact Hbi|left; reflexivity|]. intros v [= <-]. eexists; reflexivity.
+      * rewrite (str_to_ok _ _ Hb1).
+        destruct (IH (S i) (firstn (i - 1) lang)) as (pv & p & i' & E & Hb & Hp & Hv); [lia|lia|].
+        exists pv, p, i'. repeat split; [exact E|exact Hb| |exact Hv].
+        destruct Hp as [->|Hp]; [right; eexists; reflexivity|right; exact Hp].
+    + destruct (IH (S i) prefix) as (pv & p & i' & E & Hb & Hp & Hv); [lia|lia|].
+      exists pv, p, i'. repeat split; assumption.
+Qed.
+
+Lemma split_language_ok lang :
+  afol lang -> lang <> [] ->
+  exists pv p, split_language lang = Some (pv, p) /\ afol p /\ (forall v, pv = Some v -> afol v).
+Proof.
+  intros Ha Hne. unfold split_language. destruct (is_prefix [120; DASH] lang).
+  - exists (Some lang), []. repeat split; [apply afol_nil|]. intros v [= <-]. exact Ha.
+  - destruct (pu_scan_ok lang (length lang) 1 []) as (pv & p & i' & E & Hb & Hp & Hv).
+    { destruct lang; [contradiction|cbn [length]; lia]. } { lia. }
+    rewrite E.
+    assert (Hvv : forall v, pv = Some v -> afol v).
+    { intros v Hvs. destruct (Hv v Hvs) as [k ->]. apply afol_skipn, Ha. }
+    destruct (is_nil p) eqn:En.
+    + rewrite (str_to_ok _ _ Hb). exists pv, (firstn i' lang). repeat split; [apply afol_firstn, Ha|exact Hvv].
+    + exists pv, p. repeat split; [|exact Hvv].
+      destruct Hp as [->|[k ->]]; [discriminate|apply afol_firstn, Ha].
+Qed.
+
+Lemma parse_private_ok pv pat norm :
+  (forall v, pv = Some v -> afol v) -> pat <> [] -> forallb (fun b => b <? 128) pat = true ->
+  parse_private pv pat norm <> None.
+Proof.
+  intros Hv Hne Hp. unfold parse_private. destruct pv as [v|]; [|discriminate].
+  destruct (find_sub pat v) as [idx|] eqn:E; [|discriminate].
+  rewrite (str_from_ok _ _ (boundary_after_sub pat v idx (Hv v eq_refl) Hne Hp E)).
+  destruct (is_nil _); discriminate.
+Qed.
+
+Lemma eval_rules_total language rest :
+  strncmp_bytes = true -> forall rules, eval_rules language rest rules <> None.
+Proof.
+  intros Hs. induction rules as [|[c tags] t IH]; [discriminate|]. cbn [eval_rules].
+  assert (Hc : eval_cond language rest c <> None).
+  { destruct c; cbn [eval_cond].
+    1-3: intros X; discriminate X.
+    unfold strncmp. rewrite Hs. destruct (bytes_eqb _ _); intros X; discriminate X. }
+  destruct (eval_cond language rest c) as [[|]|]; [discriminate|exact IH|contradiction].
+Qed.
+
+Lemma arm_of_key b : forall arms, arm_of b arms <> [] -> In b (map fst arms).
+Proof.
+  induction arms as [|[a r] t IH]; intros H; [contradiction|]. cbn [arm_of] in H. cbn [map fst In].
+  destruct (a =? b) eqn:E; [left; apply N.eqb_eq; exact E|right; apply IH; exact H].
+Qed.
+
+Lemma complex_arms_ascii : forallb (fun a => fst a <? 128) complex_arms = true.
+Proof. vm_compute. reflexivity. Qed.
+
+Lemma complex_ok p : strncmp_bytes = true -> afol p -> p <> [] -> complex p <> None.
+Proof.
+  intros Hs Ha Hne. unfold complex.
+  pose proof (eval_rules_total p [] Hs complex_prelude) as H1.
+  destruct (eval_rules p [] complex_prelude) as [[t|]|]; [discriminate| |contradiction].
+  destruct p as [|b0 r]; [contradiction|].
+  destruct (arm_of b0 complex_arms) as [|rule rules] eqn:E; [discriminate|].
+  assert (Hb : b0 < 128).
+  { assert (Hin : In b0 (map fst complex_arms)) by (apply arm_of_key; rewrite E; discriminate).
+    apply in_map_iff in Hin. destruct Hin as [a [Ha1 Ha2]].
+    pose proof complex_arms_ascii as Hall. rewrite forallb_forall in Hall. specialize (Hall a Ha2). subst b0. lia. }
+  rewrite (str_from_ok _ _ (Ha 0%nat b0 eq_refl Hb)). apply eval_rules_total. exact Hs.
+Qed.
+
+Lemma sublang_ok p : afol p -> sublang_of p <> None.
+Proof.
+  intros Ha. unfold sublang_of. destruct (find_byte DASH p) as [i|] eqn:E; [|discriminate].
+  destruct (6 <=? length p)%nat; [|discriminate].
+  pose proof (find_byte_nth _ _ _ E) as Hn.
+  assert (Hb : boundary p (i + 1) = true).
+  { replace (i + 1)%nat with (S i) by lia. apply (Ha i DASH Hn). unfold DASH. lia. }
+  rewrite (str_from_ok _ _ Hb).
+  destruct (match find_byte DASH (skipn (i + 1) p) with Some idx => Nat.eqb idx 3 | None => Nat.eqb (length p - i - 1) 3 end) eqn:Ex;
+    [|discriminate].
+  destruct (nth_error p (i + 1)) as [b|] eqn:En; [destruct (is_alpha b); discriminate|].
+  exfalso. apply nth_error_None in En.
+  destruct (find_byte DASH (skipn (i + 1) p)) as [idx|] eqn:F.
+  - apply find_byte_lt in F. rewrite skipn_length in F. lia.
+  - apply Nat.eqb_eq in Ex. lia.
+Qed.
+
+Lemma tags_from_language_ok srch p :
+  strncmp_bytes = true -> (forall sub, srch sub <> None) -> afol p -> p <> [] ->
+  tags_from_language srch p <> None.
+Proof.
+  intros Hs Hsr Ha Hne. unfold tags_from_language, tfl_pre.
+  pose proof (complex_ok p Hs Ha Hne) as Hc. destruct (complex p) as [[t|]|]; [discriminate| |contradiction].
+  pose proof (sublang_ok p Ha) as Hsub. destruct (sublang_of p) as [sub|]; [|contradiction].
+  unfold tfl_post. specialize (Hsr sub). destruct (srch sub) as [[idx|]|]; [discriminate|discriminate|contradiction].
+Qed.
+
+Lemma language_of_some raw p : language_of raw = Some p -> p <> [] /\ (afol raw -> afol p).
+Proof.
+  unfold language_of. destruct raw as [|a r]; [discriminate|]. cbn [is_nil]. intros [= <-].
+  destruct language_lowercases; split; try discriminate; [apply afol_lower|trivial].
+Qed.
+
+Lemma tags_of_language_ok srch sc lang :
+  strncmp_bytes = true -> (forall sub, srch sub <> None) -> afol lang -> lang <> [] ->
+  tags_of_language srch sc lang <> None.
+Proof.
+  intros Hs Hsr Ha Hne. unfold tags_of_language.
+  destruct (split_language_ok lang Ha Hne) as (pv & p & E & Hp & Hv). rewrite E.
+  pose proof (parse_private_ok pv HBSC lower_b Hv ltac:(discriminate) eq_refl) as H1.
+  destruct (parse_private pv HBSC lower_b) as [scr|]; [|contradiction].
+  pose proof (parse_private_ok pv HBOT upper_b Hv ltac:(discriminate) eq_refl) as H2.
+  destruct (parse_private pv HBOT upper_b) as [[t|]|]; [discriminate| |contradiction].
+  destruct (language_of p) as [q|] eqn:Eq; [|discriminate].
+  destruct (language_of_some p q Eq) as [Hq1 Hq2].
+  pose proof (tags_from_language_ok srch q Hs Hsr (Hq2 Hp) Hq1) as H3.
+  destruct (tags_from_language srch q); [discriminate|contradiction].
+Qed.
+
+Lemma tags_gen_total srch sc lang :
+  strncmp_bytes = true -> (forall sub, srch sub <> None) -> utf8_valid lang = true ->
+  tags_gen srch sc (Some lang) <> None.
+Proof.
+  intros Hs Hsr Hv. unfold tags_gen. destruct (language_of lang) as [l|] eqn:E; [|discriminate].
+  destruct (language_of_some lang l E) as [H1 H2].
+  apply tags_of_language_ok; auto. apply H2, utf8_valid_afol, Hv.
+Qed.
+
+(* the executable search never panics once lang_cmp compares bytes *)
+Lemma lang_cmp_total a b : lang_cmp_bytes = true -> lang_cmp a b <> None.
+Proof. intros H. unfold lang_cmp. rewrite H. intros X; discriminate X. Qed.
+
+Lemma search_from_total sub : lang_cmp_bytes = true -> forall tbl i, search_from tbl sub i <> None.
+Proof.
+  intros H. induction tbl as [|[l t] r IH]; intros i; [discriminate|]. cbn [search_from].
+  pose proof (lang_cmp_total l sub H) as Hc.
+  destruct (lang_cmp l sub) as [[| |]|]; [intros X; discriminate X|apply IH|apply IH|contradiction].
+Qed.
+
+Lemma tags_total sc lang :
+  lang_cmp_bytes = true -> strncmp_bytes = true -> utf8_valid lang = true -> tags sc (Some lang) <> None.
+Proof.
+  intros H1 H2 Hv. unfold tags. apply tags_gen_total; auto. intros sub. apply search_from_total. exact H1.
+Qed.
+
+(* ================================================================== case-insensitivity *)
+
+Lemma lower_b_idem b : lower_b (lower_b b) = lower_b b.
+Proof. unfold lower_b, is_upper, in_range. destruct ((65 <=? b) && (b <=? 90)) eqn:E; [|rewrite E; reflexivity].
+  destruct ((65 <=? b + 32) && (b + 32 <=? 90)) eqn:E2; [lia|reflexivity]. Qed.
+
+Lemma lower_idem s : lower (lower s) = lower s.
+Proof. unfold lower. rewrite map_map. apply map_ext. apply lower_b_idem. Qed.
+
+Lemma language_of_case a b : language_lowercases = true -> lower a = lower b -> language_of a = language_of b.
+Proof.
+  intros Hl H. unfold language_of. rewrite Hl.
+  assert (Hn : is_nil a = is_nil b).
+  { destruct a, b; try reflexivity; discriminate. }
+  rewrite Hn, H. reflexivity.
+Qed.
+
+Lemma tags_gen_case srch sc a b :
+  language_lowercases = true -> lower a = lower b -> tags_gen srch sc (Some a) = tags_gen srch sc (Some b).
+Proof. intros Hl H. unfold tags_gen. rewrite (language_of_case a b Hl H). reflexivity. Qed.
+
+(* ================================================================== private-use subtags *)
+
+Lemma split_language_x lang : is_prefix [120; DASH] lang = true -> split_language lang = Some (Some lang, []).
+Proof. intros H. unfold split_language. rewrite H. reflexivity. Qed.
+
+(* whatever the rest of the language says, a private-use `-hbot` tag is the only language tag and a
+   private-use `-hbsc` tag the only script tag *)
+Lemma private_use_override srch sc lang pv prefix scr lg :
+  split_language lang = Some (Some pv, prefix) ->
+  parse_private (Some pv) HBSC lower_b = Some scr ->
+  parse_private (Some pv) HBOT upper_b = Some lg ->
+  (forall t, lg = Some t -> exists st, tags_of_language srch sc lang = Some (st, [t])) /\
+  (forall s, scr = Some s -> tags_of_language srch sc lang = None \/ exists lt, tags_of_language srch sc lang = Some ([s], lt)) /\
+  (scr = None -> tags_of_language srch sc lang = None \/ exists lt, tags_of_language srch sc lang = Some (all_tags_from_script sc, lt)).
+Proof.
+  intros Hs H1 H2. unfold tags_of_language. rewrite Hs, H1, H2. repeat split.
+  - intros t ->. eexists. reflexivity.
+  - intros s ->. destruct lg as [t|]; [right; eexists; reflexivity|].
+    destruct (language_of prefix) as [p|]; [|right; eexists; reflexivity].
+    destruct (tags_from_language srch p); [right; eexists; reflexivity|left; reflexivity].
+  - intros ->. destruct lg as [t|]; [right; eexists; reflexivity|].
+    destruct (language_of prefix) as [p|]; [|right; eexists; reflexivity].
+    destruct (tags_from_language srch p); [right; eexists; reflexivity|left; reflexivity].
+Qed.
+
+Lemma take_alnum_app : forall body rest n,
+  forallb is_alnum body = true -> (length body <= n)%nat ->
+  (length body = n \/ rest = [] \/ exists c r, rest = c :: r /\ is_alnum c = false) ->
+  take_alnum n (body ++ rest) = body.
+Proof.
+  induction body as [|c body IH]; intros rest n Ha Hl Hr.
+  - cbn [app]. destruct n; [destruct rest; reflexivity|].
+    destruct Hr as [Hr|[->|(c & r & -> & Hc)]]; [cbn in Hr; lia|reflexivity|]. cbn [take_alnum]. rewrite Hc. reflexivity.
+  - cbn [forallb] in Ha. apply andb_true_iff in Ha. destruct Ha as [Hc Ha]. cbn [length] in Hl.
+    destruct n; [lia|]. cbn [app take_alnum]. rewrite Hc. f_equal. apply IH; [exact Ha|lia|].
+    destruct Hr as [Hr|Hr]; [left; cbn [length] in Hr; lia|right; exact Hr].
+Qed.
+
+Lemma is_alnum_ascii c : is_alnum c = true -> c < 128.
+Proof. unfold is_alnum, is_alpha, is_upper, is_lower, is_digit, in_range. lia. Qed.
+
+(* "x-hbot" / "x-hbsc" followed by one to four alphanumerics *)
+Lemma parse_private_x pat norm body rest :
+  (pat = HBOT \/ pat = HBSC) ->
+  body <> [] -> forallb is_alnum body = true -> (length body <= 4)%nat ->
+  (length body = 4%nat \/ rest = [] \/ exists c r, rest = c :: r /\ is_alnum c = false) ->
+  parse_private (Some (120 :: pat ++ body ++ rest)) pat norm = Some (Some (dflt_quirk (tag_lossy (map norm body)))).
+Proof.
+  intros Hpat Hne Ha Hl Hr. unfold parse_private.
+  assert (Hf : find_sub pat (120 :: pat ++ body ++ rest) = Some 1%nat).
+  { destruct Hpat as [-> | ->]; reflexivity. }
+  rewrite Hf.
+  assert (Hlen : length pat = 5%nat) by (destruct Hpat as [-> | ->]; reflexivity).
+  rewrite Hlen. unfold str_from.
+  assert (Hsk : skipn (1 + 5) (120 :: pat ++ body ++ rest) = body ++ rest).
+  { destruct Hpat as [-> | ->]; reflexivity. }
+  assert (Hb : boundary (120 :: pat ++ body ++ rest) (1 + 5) = true).
+  { destruct body as [|c body]; [contradiction|]. cbn [forallb] in Ha. apply andb_true_iff in Ha. destruct Ha as [Hc _].
+    apply (boundary_ascii _ _ c); [destruct Hpat as [-> | ->]; reflexivity|apply is_alnum_ascii, Hc]. }
+  rewrite Hb, Hsk, (take_alnum_app body rest 4 Ha Hl Hr).
+  destruct body; [contradiction|reflexivity].
+Qed.
+
+(* ================================================================== script / language / features on a font *)
+
+Lemma first_index_app keys : forall a b,
+  first_index keys (a ++ b) = match first_index keys a with Some r => Some r | None => first_index keys b end.
+Proof.
+  induction a as [|t a IH]; intros b; [reflexivity|]. cbn [app first_index].
+  destruct (index_of t keys 0); [reflexivity|apply IH].
+Qed.
+
+(* select_script = first present among the script's own tags followed by the fallback list; `found`
+   says whether it was one of the script's own *)
+Lemma select_script_order ly tags :
+  option_map (fun r => (snd (fst r), snd r)) (select_script ly tags)
+    = first_index (map fst (ly_scripts ly)) (tags ++ script_fallbacks)
+  /\ (forall r, select_script ly tags = Some r ->
+        fst (fst r) = match first_index (map fst (ly_scripts ly)) tags with Some _ => true | None => false end).
+Proof.
+  unfold select_script. rewrite first_index_app.
+  destruct (first_index (map fst (ly_scripts ly)) tags) as [[i t]|].
+  - split; [reflexivity|]. intros r [= <-]. reflexivity.
+  - destruct (first_index (map fst (ly_scripts ly)) script_fallbacks) as [[i t]|].
+    + split; [reflexivity|]. intros r [= <-]. reflexivity.
+    + split; [reflexivity|]. intros r H. discriminate H.
+Qed.
+
+Lemma index_of_spec t : forall keys i j, index_of t keys i = Some j ->
+  (i <= j)%nat /\ nth_error keys (j - i) = Some t /\ (forall k, (k < j - i)%nat -> nth_error keys k <> Some t).
+Proof.
+  induction keys as [|k r IH]; intros i j H; [discriminate|]. cbn [index_of] in H.
+  destruct (k =? t) eqn:E.
+  - injection H as <-. apply N.eqb_eq in E. subst. rewrite Nat.sub_diag. repeat split; [lia|]. intros k Hk. lia.
+  - destruct (IH (S i) j H) as (H1 & H2 & H3). repeat split; [lia| |].
+    + replace (j - i)%nat with (S (j - S i)) by lia. exact H2.
+    + intros m Hm. destruct m as [|m]; [cbn; intros [= ->]; rewrite N.eqb_refl in E; discriminate|].
+      cbn [nth_error]. apply H3. lia.
+Qed.
+
+Lemma index_of_none t : forall keys i, index_of t keys i = None -> ~ In t keys.
+Proof.
+  induction keys as [|k r IH]; intros i H; [intros []|]. cbn [index_of] in H.
+  destruct (k =? t) eqn:E; [discriminate|]. intros [->|Hin]; [rewrite N.eqb_refl in E; discriminate|exact (IH _ H Hin)].
+Qed.
+
+(* first_index returns the first candidate (in candidate order) that is a key, with its position *)
+Lemma first_index_spec keys : forall cands i t,
+  first_index keys cands = Some (i, t) ->
+  nth_error keys i = Some t /\ exists pre post, cands = pre ++ t :: post /\ (forall x, In x pre -> ~ In x keys).
+Proof.
+  induction cands as [|c r IH]; intros i t H; [discriminate|]. cbn [first_index] in H.
+  destruct (index_of c keys 0) as [j|] eqn:E.
+  - injection H as <- <-. destruct (index_of_spec c keys 0 j E) as (_ & H2 & _). rewrite Nat.sub_0_r in H2.
+    split; [exact H2|]. exists [], r. split; [reflexivity|]. intros x [].
+  - destruct (IH i t H) as (H1 & pre & post & -> & Hpre). split; [exact H1|].
+    exists (c :: pre), post. split; [reflexivity|]. intros x [<-|Hx]; [exact (index_of_none _ _ _ E)|exact (Hpre x Hx)].
+Qed.
+
+Lemma first_index_none keys : forall cands, first_index keys cands = None -> forall x, In x cands -> ~ In x keys.
+Proof.
+  induction cands as [|c r IH]; intros H x Hx; [destruct Hx|]. cbn [first_index] in H.
+  destruct (index_of c keys 0) eqn:E; [discriminate|]. destruct Hx as [<-|Hx]; [exact (index_of_none _ _ _ E)|exact (IH H x Hx)].
+Qed.
+
+(* select_script_language: first existing among the language tags, then the fallback tag *)
+Lemma select_language_order ly sidx ltags tag sr :
+  nth_error (ly_scripts ly) sidx = Some (tag, sr) ->
+  select_script_language ly sidx ltags
+    = option_map fst (first_index (map fst (sc_langs sr)) (ltags ++ [lang_fallback])).
+Proof.
+  intros H. unfold select_script_language. rewrite H, first_index_app.
+  destruct (first_index (map fst (sc_langs sr)) ltags) as [[i t]|]; [reflexivity|].
+  cbn [first_index]. destruct (index_of lang_fallback (map fst (sc_langs sr)) 0); reflexivity.
+Qed.
+
+(* the language system whose features are used: the selected record, else the script's default *)
+Lemma sys_of_selected ly sidx tag sr lidx :
+  nth_error (ly_scripts ly) sidx = Some (tag, sr) ->
+  sys_of ly sidx lidx = match lidx with Some i => option_map snd (nth_error (sc_langs sr) i) | None => sc_default sr end.
+Proof. intros H. unfold sys_of. rewrite H. reflexivity. Qed.
+
+Lemma find_in_feats_spec feats ftag : forall idxs i,
+  find_in_feats feats idxs ftag = Some i -> In i idxs /\ nth_error feats i = Some ftag.
+Proof.
+  induction idxs as [|j r IH]; intros i H; [discriminate|]. cbn [find_in_feats] in H.
+  destruct (nth_error feats j) as [t|] eqn:E.
+  - destruct (t =? ftag) eqn:Et.
+    + injection H as <-. apply N.eqb_eq in Et. subst. split; [left; reflexivity|exact E].
+    + destruct (IH i H). split; [right|]; assumption.
+  - destruct (IH i H). split; [right|]; assumption.
+Qed.
+
+Lemma find_in_feats_none feats ftag : forall idxs,
+  find_in_feats feats idxs ftag = None -> forall i, In i idxs -> nth_error feats i <> Some ftag.
+Proof.
+  induction idxs as [|j r IH]; intros H i Hi; [destruct Hi|]. cbn [find_in_feats] in H.
+  destruct (nth_error feats j) as [t|] eqn:E.
+  - destruct (t =? ftag) eqn:Et; [discriminate|]. destruct Hi as [<-|Hi]; [|exact (IH H i Hi)].
+    rewrite E. intros [= ->]. rewrite N.eqb_refl in Et. discriminate.
+  - destruct Hi as [<-|Hi]; [rewrite E; discriminate|exact (IH H i Hi)].
+Qed.
+
+(* exactly the features listed by the selected language system (among the requested tags), plus its
+   required feature *)
+Lemma active_features_spec ly stags ltags requested found sidx tag i :
+  select_script ly stags = Some (found, sidx, tag) ->
+  let lidx := select_script_language ly sidx ltags in
+  In i (active_features ly stags ltags requested) <->
+    (exists t, required_feature ly sidx lidx = Some (i, t)) \/
+    (exists sys t, sys_of ly sidx lidx = Some sys /\ In t requested /\
+                   find_in_feats (ly_feats ly) (ls_feats sys) t = Some i).
+Proof.
+  intros Hs lidx. unfold active_features. rewrite Hs. fold lidx. rewrite in_app_iff, in_flat_map. split.
+  - intros [H|[t [Ht H]]].
+    + left. destruct (required_feature ly sidx lidx) as [[j t]|]; [|destruct H]. cbn in H. destruct H as [<-|[]]. eexists; reflexivity.
+    + right. unfold find_language_feature in H. destruct (sys_of ly sidx lidx) as [sys|]; [|destruct H].
+      destruct (find_in_feats (ly_feats ly) (ls_feats sys) t) as [j|] eqn:E; [|destruct H].
+      cbn in H. destruct H as [<-|[]]. exists sys, t. auto.
+  - intros [[t H]|(sys & t & H1 & H2 & H3)].
+    + left. rewrite H. left. reflexivity.
+    + right. exists t. split; [exact H2|]. unfold find_language_feature. rewrite H1, H3. left. reflexivity.
+Qed.
+
+Lemma active_features_none ly stags ltags requested :
+  select_script ly stags = None -> active_features ly stags ltags requested = [].
+Proof. intros H. unfold active_features. rewrite H. reflexivity. Qed.
+
+Lemma required_feature_spec ly sidx lidx i t :
+  required_feature ly sidx lidx = Some (i, t) <->
+  exists sys, sys_of ly sidx lidx = Some sys /\ ls_req sys = Some i /\ nth_error (ly_feats ly) i = Some t.
+Proof.
+  unfold required_feature. split.
+  - destruct (sys_of ly sidx lidx) as [sys|]; [|discriminate]. destruct (ls_req sys) as [j|] eqn:E; [|discriminate].
+    destruct (nth_error (ly_feats ly) j) as [u|] eqn:F; [|discriminate]. intros [= <- <-]. exists sys. auto.
+  - intros (sys & -> & -> & ->). reflexivity.
+Qed.
+
+(* ================================================================== script tags *)
+
+Lemma assoc_app k : forall a b, assoc k (a ++ b) = match assoc k a with Some v => Some v | None => assoc k b end.
+Proof.
+  induction a as [|[x y] a IH]; intros b; [reflexivity|]. cbn [app assoc]. destruct (x =? k); [reflexivity|apply IH].
+Qed.
+
+Lemma assoc_In k v : forall l, assoc k l = Some v -> In (k, v) l.
+Proof.
+  induction l as [|[x y] l IH]; intros H; [discriminate|]. cbn [assoc] in H. destruct (x =? k) eqn:E.
+  - injection H as <-. apply N.eqb_eq in E. subst. left. reflexivity.
+  - right. apply IH, H.
+Qed.
+
+(* the statement: scripts of `two` have three tags (generation 3, generation 2, old), scripts of
+   `v2` two (generation 2, old), all others the old tag only *)
+Definition spec_old_tag (old : list (N * N)) (sc : N) : N :=
+  match assoc sc old with Some t => t | None => N.lor sc 536870912 end.
+Definition spec_script_tags (two v2 old : list (N * N)) (sc : N) : list N :=
+  match assoc sc two with
+  | Some t2 => [t2 / 256 * 256 + 51; t2; spec_old_tag old sc]
+  | None => match assoc sc v2 with
+            | Some t2 => [t2; spec_old_tag old sc]
+            | None => [spec_old_tag old sc]
+            end
+  end.
+
+Lemma all_tags_spec two v2 old sc :
+  new_script_tags = two ++ v2 -> old_script_special = old ->
+  forallb (fun p => negb (snd p =? no_gen3_tag)) two = true ->
+  forallb (fun p => snd p =? no_gen3_tag) v2 = true ->
+  all_tags_from_script (Some sc) = spec_script_tags two v2 old sc.
+Proof.
+  intros Hn Ho H2 H1. unfold all_tags_from_script, spec_script_tags, old_tag, spec_old_tag. rewrite Hn, Ho, assoc_app.
+  destruct (assoc sc two) as [t2|] eqn:E.
+  - rewrite forallb_forall in H2. specialize (H2 _ (assoc_In _ _ _ E)). cbn [snd] in H2.
+    apply negb_true_iff in H2. rewrite H2. reflexivity.
+  - destruct (assoc sc v2) as [t2|] eqn:F; [|reflexivity].
+    rewrite forallb_forall in H1. specialize (H1 _ (assoc_In _ _ _ F)). cbn [snd] in H1. rewrite H1. reflexivity.
+Qed.
+
+(* ================================================================== the registry *)
+
+Definition le_code (c : option comparison) : bool := match c with Some Lt | Some Eq => true | _ => false end.
+Definition is_eq (c : option comparison) : bool := match c with Some Eq => true | _ => false end.
+
+Fixpoint all_pairs_le (l : list row) : bool :=
+  match l with
+  | [] => true
+  | a :: t => forallb (fun b => le_code (lang_cmp (fst a) (fst b))) t && all_pairs_le t
+  end.
+
+Lemma all_pairs_le_use d : forall l, all_pairs_le l = true ->
+  forall i j, (i < j)%nat -> (j < length l)%nat -> le_code (lang_cmp (fst (nth i l d)) (fst (nth j l d))) = true.
+Proof.
+  induction l as [|a t IH]; intros H i j Hij Hj; [cbn in Hj; lia|].
+  cbn [all_pairs_le] in H. apply andb_true_iff in H. destruct H as [Ha Ht]. cbn [length] in Hj.
+  destruct j as [|j]; [lia|]. destruct i as [|i].
+  - cbn [nth]. rewrite forallb_forall in Ha. apply Ha. apply nth_In. lia.
+  - cbn [nth]. apply IH; [exact Ht|lia|lia].
+Qed.
+
+Lemma registry_pairs : all_pairs_le lang_table = true.
+Proof. vm_compute. reflexivity. Qed.
+
+Lemma registry_sorted i j : (i < j)%nat -> (j < nrows)%nat ->
+  le_code (lang_cmp (fst (row_at i)) (fst (row_at j))) = true.
+Proof. intros. unfold row_at. apply all_pairs_le_use; [exact registry_pairs|assumption|assumption]. Qed.
+
+(* ---- every registry language reaches its first registered tag, whatever index the search returns ---- *)
+
+Definition first_registered (l : bytes) : option N :=
+  match find (fun r => bytes_eqb (fst r) l) lang_table with
+  | Some (_, t) => if t =? 0 then None else Some t
+  | None => None
+  end.
+
+(* the contract of binary_search_by for the probe string `sub` *)
+Definition search_ok (sub : bytes) (r : option (option nat)) : Prop :=
+  match r with
+  | None => exists i, (i < nrows)%nat /\ lang_cmp (fst (row_at i)) sub = None
+  | Some (Some i) => (i < nrows)%nat /\ lang_cmp (fst (row_at i)) sub = Some Eq
+  | Some None => forall i, (i < nrows)%nat -> lang_cmp (fst (row_at i)) sub <> Some Eq
+  end.
+
+(* the plain path of tags_from_script_and_language up to the registry search:
+   (language handed to tags_from_language, probe string, script override) *)
+Definition probe_of (l : bytes) : option (bytes * bytes * option N) :=
+  match language_of l with
+  | None => None
+  | Some lang =>
+    match split_language lang with
+    | Some (pv, prefix) =>
+      match parse_private pv HBSC lower_b, parse_private pv HBOT upper_b with
+      | Some scr, Some None =>
+        match language_of prefix with
+        | Some p => match tfl_pre p with LSearch sub => Some (p, sub, scr) | LDone _ => None end
+        | None => None
+        end
+      | _, _ => None
+      end
+    | None => None
+    end
+  end.
+
+Lemma tags_gen_probe srch sc l p sub scr :
+  probe_of l = Some (p, sub, scr) ->
+  tags_gen srch sc (Some l) =
+    match tfl_post p (srch sub) with
+    | None => None
+    | Some ls => Some (match scr with
+                       | Some t => [t]
+                       | None => all_tags_from_script (match sc with Some s => script_of s | None => None end)
+                       end, ls)
+    end.
+Proof.
+  unfold probe_of, tags_gen, tags_of_language. destruct (language_of l) as [lang|]; [|discriminate].
+  destruct (split_language lang) as [[pv prefix]|]; [|discriminate].
+  destruct (parse_private pv HBSC lower_b) as [scr'|]; [|discriminate].
+  destruct (parse_private pv HBOT upper_b) as [[t|]|]; [discriminate| |discriminate].
+  destruct (language_of prefix) as [q|]; [|discriminate]. unfold tags_from_language.
+  destruct (tfl_pre q) as [r|sub']; [discriminate|]. intros [= <- <- <-]. reflexivity.
+Qed.
+
+Definition optN_eqb (a b : option N) : bool :=
+  match a, b with Some x, Some y => x =? y | None, None => true | _, _ => false end.
+
+Lemma optN_eqb_eq a b : optN_eqb a b = true -> a = b.
+Proof. destruct a, b; cbn; try discriminate; [|reflexivity]. intros H. apply N.eqb_eq in H. subst. reflexivity. Qed.
+
+Fixpoint check_rows (tbl : list row) (i : nat) (sub : bytes) (want : option N) : bool :=
+  match tbl with
+  | [] => true
+  | r :: t =>
+    (match lang_cmp (fst r) sub with
+     | None => false
+     | Some Eq => optN_eqb (hd_error (tfl_found i)) want
+     | Some _ => true
+     end) && check_rows t (S i) sub want
+  end.
+
+Lemma check_rows_use sub want d : forall tbl k, check_rows tbl k sub want = true ->
+  forall i, (i < length tbl)%nat ->
+    lang_cmp (fst (nth i tbl d)) sub <> None /\
+    (lang_cmp (fst (nth i tbl d)) sub = Some Eq -> hd_error (tfl_found (k + i)) = want).
+Proof.
+  induction tbl as [|r t IH]; intros k H i Hi; [cbn in Hi; lia|].
+  cbn [check_rows] in H. apply andb_true_iff in H. destruct H as [Hr Ht]. destruct i as [|i].
+  - cbn [nth]. rewrite Nat.add_0_r. destruct (lang_cmp (fst r) sub) as [[| |]|]; try discriminate; split; try discriminate.
+    intros _. apply optN_eqb_eq, Hr.
+  - cbn [nth]. cbn [length] in Hi. replace (k + S i)%nat with (S k + i)%nat by lia. apply IH; [exact Ht|lia].
+Qed.
+
+Definition hit_ok (l : bytes) : bool :=
+  match probe_of l with
+  | Some (_, sub, _) =>
+      check_rows lang_table 0 sub (first_registered l) && existsb (fun r => is_eq (lang_cmp (fst r) sub)) lang_table
+  | None => false
+  end.
+
+Lemma hit_ok_sound l : hit_ok l = true ->
+  forall srch, (forall sub, search_ok sub (srch sub)) ->
+  forall sc, exists st lt, tags_gen srch sc (Some l) = Some (st, lt) /\ hd_error lt = first_registered l.
+Proof.
+  unfold hit_ok. destruct (probe_of l) as [[[p sub] scr]|] eqn:E; [|discriminate].
+  intros H srch Hs sc. apply andb_true_iff in H. destruct H as [Hc Hex].
+  rewrite (tags_gen_probe srch sc l p sub scr E). specialize (Hs sub).
+  pose proof (check_rows_use sub (first_registered l) ([], 0) lang_table 0%nat Hc) as Hu.
+  destruct (srch sub) as [[i|]|]; cbn [search_ok tfl_post] in *.
+  - destruct Hs as [Hi Heq]. destruct (Hu i Hi) as [_ H2]. eexists; eexists. split; [reflexivity|]. apply (H2 Heq).
+  - exfalso. apply existsb_exists in Hex. destruct Hex as [r [Hin Hr]].
+    destruct (In_nth _ _ ([], 0) Hin) as [i [Hi Hn]]. apply (Hs i Hi). unfold row_at. rewrite Hn.
+    destruct (lang_cmp (fst r) sub) as [[| |]|]; try discriminate. reflexivity.
+  - exfalso. destruct Hs as [i [Hi Hn]]. destruct (Hu i Hi) as [H1 _]. exact (H1 Hn).
+Qed.
+
+Definition sweep_rows (P : bytes -> bool) (tbl : list row) : bool := forallb (fun r => P (fst r)) tbl.
+
+Lemma sweep_rows_use P tbl : sweep_rows P tbl = true -> forall l t, In (l, t) tbl -> P l = true.
+Proof. unfold sweep_rows. intros H l t Hin. rewrite forallb_forall in H. exact (H (l, t) Hin). Qed.
+
+Lemma registry_sorted_or i j : (i < j)%nat -> (j < nrows)%nat ->
+  lang_cmp (fst (row_at i)) (fst (row_at j)) = Some Lt \/ lang_cmp (fst (row_at i)) (fst (row_at j)) = Some Eq.
+Proof.
+  intros Hij Hj. pose proof (registry_sorted i j Hij Hj) as H.
+  destruct (lang_cmp (fst (row_at i)) (fst (row_at j))) as [[| |]|]; cbn in H; try discriminate H; auto.
+Qed.
+
+Lemma registry_hits_sweep : sweep_rows hit_ok lang_table = true.
+Proof. vm_compute. reflexivity. Qed.
+
+Lemma registry_hits srch : (forall sub, search_ok sub (srch sub)) ->
+  forall l t, In (l, t) lang_table ->
+  forall sc, exists st lt, tags_gen srch sc (Some l) = Some (st, lt) /\ hd_error lt = first_registered l.
+Proof.
+  intros Hs l t Hin. apply hit_ok_sound; [|exact Hs]. exact (sweep_rows_use hit_ok lang_table registry_hits_sweep l t Hin).
+Qed.
+
+(* the executable search satisfies the contract *)
+Lemma search_from_spec sub d : forall tbl k,
+  match search_from tbl sub k with
+  | None => exists i, (i < length tbl)%nat /\ lang_cmp (fst (nth i tbl d)) sub = None
+  | Some (Some j) => exists i, j = (k + i)%nat /\ (i < length tbl)%nat /\ lang_cmp (fst (nth i tbl d)) sub = Some Eq
+  | Some None => forall i, (i < length tbl)%nat -> lang_cmp (fst (nth i tbl d)) sub <> Some Eq
+  end.
+Proof.
+  induction tbl as [|[l t] r IH]; intros k; cbn [search_from].
+  - intros i Hi. cbn in Hi. lia.
+  - destruct (lang_cmp l sub) as [[| |]|] eqn:E.
+    + exists 0%nat. cbn [nth fst length]. repeat split; [lia|lia|exact E].
+    + specialize (IH (S k)). destruct (search_from r sub (S k)) as [[j|]|].
+      * destruct IH as (i & -> & Hi & Hc). exists (S i). cbn [nth length]. repeat split; [lia|lia|exact Hc].
+      * intros [|i] Hi; cbn [nth fst]; [rewrite E; discriminate|apply IH; cbn [length] in Hi; lia].
+      * destruct IH as (i & Hi & Hc). exists (S i). cbn [nth length]. split; [lia|exact Hc].
+    + specialize (IH (S k)). destruct (search_from r sub (S k)) as [[j|]|].
+      * destruct IH as (i & -> & Hi & Hc). exists (S i). cbn [nth length]. repeat split; [lia|lia|exact Hc].
+      * intros [|i] Hi; cbn [nth fst]; [rewrite E; discriminate|apply IH; cbn [length] in Hi; lia].
+      * destruct IH as (i & Hi & Hc). exists (S i). cbn [nth length]. split; [lia|exact Hc].
+    + exists 0%nat. cbn [nth fst length]. split; [lia|exact E].
+Qed.
+
+Lemma search_first_ok sub : search_ok sub (search_first sub).
+Proof.
+  unfold search_first, search_ok. pose proof (search_from_spec sub ([], 0) lang_table 0%nat) as H.
+  destruct (search_from lang_table sub 0) as [[j|]|].
+  - destruct H as (i & -> & Hi & Hc). split; [exact Hi|exact Hc].
+  - exact H.
+  - exact H.
+Qed.
+
+Lemma registry_hits_exec l t : In (l, t) lang_table ->
+  forall sc, exists st lt, tags sc (Some l) = Some (st, lt) /\ hd_error lt = first_registered l.
+Proof. intros Hin. exact (registry_hits search_first search_first_ok l t Hin). Qed.
+
+Lemma first_index_meaning keys cands :
+  match first_index keys cands with
+  | Some (i, t) => nth_error keys i = Some t /\
+                   exists pre post, cands = pre ++ t :: post /\ (forall x, In x pre -> ~ In x keys)
+  | None => forall x, In x cands -> ~ In x keys
+  end.
+Proof.
+  destruct (first_index keys cands) as [[i t]|] eqn:E; [exact (first_index_spec keys cands i t E)|exact (first_index_none keys cands E)].
+Qed.
+
+Lemma find_in_feats_meaning feats ftag idxs :
+  match find_in_feats feats idxs ftag with
+  | Some i => In i idxs /\ nth_error feats i = Some ftag
+  | None => forall i, In i idxs -> nth_error feats i <> Some ftag
+  end.
+Proof.
+  destruct (find_in_feats feats idxs ftag) as [i|] eqn:E; [exact (find_in_feats_spec feats ftag idxs i E)|exact (find_in_feats_none feats ftag idxs E)].
+Qed.
+
+Lemma lang_order ly sidx ltags tag sr :
+  nth_error (ly_scripts ly) sidx = Some (tag, sr) ->
+  select_script_language ly sidx ltags = option_map fst (first_index (map fst (sc_langs sr)) (ltags ++ [lang_fallback]))
+  /\ forall lidx, sys_of ly sidx lidx =
+       match lidx with Some i => option_map snd (nth_error (sc_langs sr) i) | None => sc_default sr end.
+Proof. intros H. split; [exact (select_language_order ly sidx ltags tag sr H)|exact (fun lidx => sys_of_selected ly sidx tag sr lidx H)]. Qed.
+
+Lemma private_use_x pat norm body rest :
+  (pat = HBOT \/ pat = HBSC) ->
+  body <> [] -> forallb is_alnum body = true -> (length body <= 4)%nat ->
+  (length body = 4%nat \/ rest = [] \/ exists c r, rest = c :: r /\ is_alnum c = false) ->
+  split_language (120 :: pat ++ body ++ rest) = Some (Some (120 :: pat ++ body ++ rest), []) /\
+  parse_private (Some (120 :: pat ++ body ++ rest)) pat norm = Some (Some (dflt_quirk (tag_lossy (map norm body)))).
+Proof.
+  intros Hp Hne Ha Hl Hr. split; [|exact (parse_private_x pat norm body rest Hp Hne Ha Hl Hr)].
+  apply split_language_x. destruct Hp as [-> | ->]; reflexivity.
+Qed.
